@@ -679,7 +679,9 @@ package dns
 //@    return string(out)
 //@ }
 // specNegotiationScenario: the client's handshake over the path must end within the time budget; if it reports
-// success, data of several fragments must arrive unchanged in both directions over the same path.
+// success, data of several fragments must arrive unchanged in both directions over the same path.  The server
+// queues its data first, so that the answers to the client's full-length data requests carry full fragments
+// (the worst case for an answer size limit, and the same on every run).
 //@ go func specNegotiationScenario(name string, p *specPath) bool {
 //@    budget := 60 * time.Second
 //@    log.SetLevel(log.ErrorLevel)
@@ -717,6 +719,10 @@ package dns
 //@          res <- "accept: " + err.Error()
 //@          return
 //@       }
+//@       if _, err := conn.Write(down); err != nil {
+//@          res <- "server write: " + err.Error()
+//@          return
+//@       }
 //@       got := make([]byte, len(up))
 //@       if _, err := io.ReadFull(conn, got); err != nil {
 //@          res <- "server read: " + err.Error()
@@ -724,10 +730,6 @@ package dns
 //@       }
 //@       if !bytes.Equal(got, up) {
 //@          res <- "the server received different octets than the client wrote"
-//@          return
-//@       }
-//@       if _, err := conn.Write(down); err != nil {
-//@          res <- "server write: " + err.Error()
 //@          return
 //@       }
 //@       res <- ""
